@@ -4,6 +4,17 @@ From Coq Require Import List Bool Arith ZArith Lia Field Ring.
 From Pymoto Require Import Base.Fld Base.FldP Model.Lda.
 Import ListNotations.
 
+Inductive Forall3 {X Y Z} (P : X -> Y -> Z -> Prop) : list X -> list Y -> list Z -> Prop :=
+| F3_nil : Forall3 P [] [] []
+| F3_cons a b c la lb lc : P a b c -> Forall3 P la lb lc -> Forall3 P (a :: la) (b :: lb) (c :: lc).
+
+Lemma Forall3_cons_inv {X Y Z} (P : X -> Y -> Z -> Prop) a la LB LC :
+  Forall3 P (a :: la) LB LC ->
+  exists b lb c lc, LB = b :: lb /\ LC = c :: lc /\ P a b c /\ Forall3 P la lb lc.
+Proof. intros H. inversion H; subst. eauto 10. Qed.
+Lemma Forall3_nil_inv {X Y Z} (P : X -> Y -> Z -> Prop) LB LC : Forall3 P [] LB LC -> LB = [] /\ LC = [].
+Proof. intros H. inversion H; auto. Qed.
+
 Section LdaProofs.
   Context {F : Type} {I : Fld F} {L : FldLaws F}.
   Add Field FF2 : (@Fth F I L).
@@ -410,5 +421,420 @@ Section LdaProofs.
       + rewrite mgs_vscale, (mgs_member n), IH, vscale_zero by auto. apply vadd_zero_r, vzero_length.
       + rewrite vscale_length. rewrite Forall_forall in Hl. auto.
       + eapply span_length; eauto.
+  Qed.
+
+  (* ================================================================ _do_solve_1rhs *)
+  Local Arguments gs_step : simpl never.
+  Local Arguments add_db : simpl never.
+  (* per column: A sol + rhs_loc = rhs, rhs_loc lives on the non-diagonal dofs *)
+  Definition col_ok (n : nat) A m rhs rl sol : Prop :=
+    length rhs = n /\ length rl = n /\ length sol = n /\ vadd (mv A sol) rl = rhs /\ pn m rl = rl.
+
+  Lemma col_ok_init n A m rhs : wfm n A -> Decoupled n A m -> length rhs = n ->
+    col_ok n A m rhs (pn m rhs) (diag_div m rhs (diag A)).
+  Proof.
+    intros W Dc Hr. pose proof Dc as [Hl _]. pose proof W as [HlA _].
+    repeat split; auto.
+    - rewrite pn_length; lia.
+    - apply diag_div_length; auto. rewrite diag_length; auto.
+    - rewrite (mv_diag_div n); auto. apply pd_pn_sum. lia.
+    - apply pn_idem.
+  Qed.
+
+  Lemma col_ok_step n A m p rhs rl sol a : wfm n A -> Decoupled n A m -> pair_ok n A m p ->
+    col_ok n A m rhs rl sol ->
+    col_ok n A m rhs (vsub rl (vscale a (p_b p))) (vadd sol (vscale a (p_x p))).
+  Proof.
+    intros W Dc Hp (H1 & H2 & H3 & H4 & H5). pose proof (pair_ok_pn_b n A m p W Dc Hp) as Hpb.
+    destruct Hp as (Hx & Hb & HA & Hpx & Hnz). pose proof W as [HlA _].
+    repeat split; auto.
+    - rewrite vsub_length; rewrite ?vscale_length; lia.
+    - rewrite vadd_length; rewrite ?vscale_length; lia.
+    - rewrite mv_vadd, mv_vscale, HA by (rewrite vscale_length; lia).
+      rewrite vadd_vsub_swap; auto; rewrite ?mv_length, ?vscale_length; lia.
+    - rewrite pn_vsub, pn_vscale, Hpb, H5; auto. rewrite vscale_length; lia.
+  Qed.
+
+  Lemma F3_update n A m p (g : vec F -> F) RHS RL SOL : wfm n A -> Decoupled n A m -> pair_ok n A m p ->
+    Forall3 (col_ok n A m) RHS RL SOL ->
+    Forall3 (col_ok n A m) RHS (map2 vsub RL (map (fun a => vscale a (p_b p)) (map g RL)))
+                               (map2 vadd SOL (map (fun a => vscale a (p_x p)) (map g RL))).
+  Proof. intros W Dc Hp. induction 1; simpl; constructor; auto. apply col_ok_step; auto. Qed.
+
+  Lemma gs_step_ok n A m dt p RHS RL SOL : wfm n A -> Decoupled n A m -> pair_ok n A m p ->
+    Forall3 (col_ok n A m) RHS RL SOL ->
+    Forall3 (col_ok n A m) RHS (fst (gs_step dt (RL, SOL) p)) (snd (gs_step dt (RL, SOL) p)).
+  Proof.
+    intros W Dc Hp H3. unfold gs_step.
+    destruct (p_tag p && negb dt && negb (castable _)); simpl; auto.
+    destruct (p_tag p && negb dt && negb (castable _)); simpl; auto.
+    apply F3_update; auto.
+  Qed.
+
+  Lemma gs_loop_ok n A m dt RHS : wfm n A -> Decoupled n A m -> forall db RL SOL,
+    Forall (pair_ok n A m) db -> Forall3 (col_ok n A m) RHS RL SOL ->
+    Forall3 (col_ok n A m) RHS (fst (fold_left (gs_step dt) db (RL, SOL))) (snd (fold_left (gs_step dt) db (RL, SOL))).
+  Proof.
+    intros W Dc. induction db as [|p db IH]; intros RL SOL Hdb H3; simpl; auto.
+    apply Forall_cons_iff in Hdb as [Hp Hdb].
+    pose proof (gs_step_ok n A m dt p RHS RL SOL W Dc Hp H3) as H3'.
+    destruct (gs_step dt (RL, SOL) p) as [RL' SOL']. apply IH; auto.
+  Qed.
+
+  Lemma vsub_all_zero a c : length a = length c -> Forall (fun z => z = 0) (vsub a c) -> a = c.
+  Proof.
+    unfold vsub. revert c; induction a as [|x a IH]; intros [|y c] E H; simpl in *; try discriminate; auto.
+    inversion H as [|? ? H1 H2]; subst. f_equal; auto.
+    transitivity ((x - y) + y); [ring | rewrite H1; ring].
+  Qed.
+
+  Lemma residual_zero n A m rhs rl sol : wfm n A -> col_ok n A m rhs rl sol ->
+    negb (fis0 (nrm2 (vsub (mv A sol) rhs))) = false -> mv A sol = rhs.
+  Proof.
+    intros [HlA _] (H1 & H2 & H3 & H4 & H5) E. apply negb_false_iff, is0_spec in E.
+    apply nrm2_definite in E. apply vsub_all_zero in E; auto. rewrite mv_length. lia.
+  Qed.
+
+  Definition did_of A (SOL RHS : list (vec F)) : list bool :=
+    map2 (fun s r => negb (fis0 (nrm2 (vsub (mv A s) r)))) SOL RHS.
+
+  Lemma pick_lengths n A m RHS RL SOL : Forall3 (col_ok n A m) RHS RL SOL -> forall did,
+    Forall (fun r => length r = n) (pick did RL).
+  Proof.
+    induction 1 as [|rhs rl sol RHS RL SOL Hc H3 IH]; intros [|[|] did]; simpl; auto.
+    constructor; auto. destruct Hc as (_ & H2 & _); auto.
+  Qed.
+
+  Lemma merge_correct n A m : wfm n A -> Decoupled n A m -> forall RHS RL SOL,
+    Forall3 (col_ok n A m) RHS RL SOL -> forall XN,
+    Forall2 (fun r x => length x = n /\ mv A x = r) (pick (did_of A SOL RHS) RL) XN ->
+    Forall2 (fun rhs x => length x = n /\ mv A x = rhs) RHS (merge m (did_of A SOL RHS) SOL XN).
+  Proof.
+    intros W Dc. pose proof W as [HlA _]. pose proof Dc as [Hlm _].
+    induction 1 as [|rhs rl sol RHS RL SOL Hc H3 IH]; intros XN HX; simpl in *.
+    - constructor.
+    - unfold did_of in *. simpl in *.
+      destruct (negb (fis0 (nrm2 (vsub (mv A sol) rhs)))) eqn:Ed.
+      + destruct (Forall2_cons_inv_l _ _ _ _ HX) as (xn & XN' & -> & [Lx Ex] & HX'). constructor; auto.
+        destruct Hc as (H1 & H2 & H3' & H4 & H5). split.
+        * rewrite vadd_length; [lia | rewrite pn_length; lia].
+        * rewrite mv_vadd by (rewrite pn_length; lia). rewrite (mv_pn_comm n), Ex, H5 by auto. exact H4.
+      + constructor; auto. split. * destruct Hc as (_ & _ & H3' & _); auto.
+        * eapply residual_zero; eauto.
+  Qed.
+
+  Lemma no_call_correct n A m : wfm n A -> forall RHS RL SOL, Forall3 (col_ok n A m) RHS RL SOL ->
+    existsb (fun c : bool => c) (did_of A SOL RHS) = false ->
+    Forall2 (fun rhs x => length x = n /\ mv A x = rhs) RHS SOL.
+  Proof.
+    intros W. induction 1 as [|rhs rl sol RHS RL SOL Hc H3 IH]; intros E; simpl in *.
+    - constructor.
+    - unfold did_of in *. simpl in E. apply orb_false_iff in E as [E1 E2]. constructor; auto.
+      split. + destruct Hc as (_ & _ & H3' & _); auto. + eapply residual_zero; eauto.
+  Qed.
+
+  (* ---------------------------------------------------------------- adding to the database *)
+  Definition xb_ok (n : nat) A m (st : vec F * vec F) : Prop :=
+    length (fst st) = n /\ length (snd st) = n /\ mv A (fst st) = snd st /\ pn m (fst st) = fst st.
+
+  Lemma orth_step_ok n A m p st : wfm n A -> pair_ok n A m p -> xb_ok n A m st ->
+    xb_ok n A m (orth_step st p) /\ snd (orth_step st p) = mgs_step (snd st) (p_b p).
+  Proof.
+    intros W (Hx & Hb & HA & Hpx & Hnz) (H1 & H2 & H3 & H4). destruct st as [xa ba]. simpl in *.
+    split; [| reflexivity]. repeat split; simpl.
+    - rewrite vsub_length; rewrite ?vscale_length; lia.
+    - rewrite vsub_length; rewrite ?vscale_length; lia.
+    - rewrite mv_vsub, mv_vscale, HA, H3 by (rewrite vscale_length; lia). reflexivity.
+    - rewrite pn_vsub, pn_vscale, Hpx, H4 by (rewrite vscale_length; lia). reflexivity.
+  Qed.
+
+  Lemma orth_loop_ok n A m : wfm n A -> forall db st, Forall (pair_ok n A m) db -> xb_ok n A m st ->
+    xb_ok n A m (fold_left orth_step db st) /\ snd (fold_left orth_step db st) = mgs (map p_b db) (snd st).
+  Proof.
+    intros W. induction db as [|p db IH]; intros st Hdb Hst; simpl; auto.
+    apply Forall_cons_iff in Hdb as [Hp Hdb].
+    destruct (orth_step_ok n A m p st W Hp Hst) as [Hst' E].
+    destruct (IH (orth_step st p) Hdb Hst') as [Hf E']. split; auto. rewrite E', E. reflexivity.
+  Qed.
+
+  Lemma pair_ok_nzlen n A m db : Forall (pair_ok n A m) db -> Forall (nzlen n) (map p_b db).
+  Proof. induction 1 as [|p db Hp H IH]; simpl; constructor; auto. destruct Hp as (_ & Hb & _ & _ & Hnz). split; auto. Qed.
+
+  Lemma add_db_inv n A m dt db xn : wfm n A -> Decoupled n A m -> db_inv n A m db -> length xn = n ->
+    db_inv n A m (add_db A m dt db xn).
+  Proof.
+    intros W Dc [Hdb Ho] Hx. pose proof W as [HlA _]. pose proof Dc as [Hlm _]. unfold add_db.
+    assert (Hst : xb_ok n A m (pn m xn, pn m (mv A xn))).
+    { repeat split; simpl.
+      - rewrite pn_length; lia.
+      - rewrite pn_length; rewrite mv_length; lia.
+      - apply (mv_pn_comm n); auto.
+      - apply pn_idem. }
+    destruct (orth_loop_ok n A m W db _ Hdb Hst) as [(H1 & H2 & H3 & H4) E].
+    destruct (fold_left orth_step db (pn m xn, pn m (mv A xn))) as [xa ba]. simpl in *.
+    destruct (fis0 (nrm2 ba)) eqn:Ez.
+    - split; auto.
+    - apply is0_false in Ez. split.
+      + apply Forall_app. split; auto. constructor; auto. repeat split; simpl; auto.
+      + rewrite map_app. simpl. apply orth_app. repeat split; simpl; auto.
+        * intros d [].
+        * intros a c Ha [<- | []]. rewrite E.
+          apply (mgs_orth n (map p_b db) []); simpl; auto.
+          -- apply (pair_ok_nzlen n A m); auto.
+          -- rewrite pn_length; rewrite mv_length; lia.
+          -- intros d [].
+  Qed.
+
+  Lemma add_db_loop_inv n A m dt : wfm n A -> Decoupled n A m -> forall XN db, db_inv n A m db ->
+    Forall (fun x => length x = n) XN -> db_inv n A m (fold_left (add_db A m dt) XN db).
+  Proof.
+    intros W Dc. induction XN as [|xn XN IH]; intros db Hdb HX; simpl; auto.
+    apply Forall_cons_iff in HX as [Hx HX]. apply IH; auto. apply add_db_inv; auto.
+  Qed.
+
+  (* ---------------------------------------------------------------- the routine as a whole *)
+  Definition solve_fn_ok (n : nat) (M : mat F)
+             (solve_fn : list (vec F) -> option (list (vec F)) -> list (vec F)) : Prop :=
+    forall R X0, Forall (fun r => length r = n) R ->
+                 Forall2 (fun r x => length x = n /\ mv M x = r) R (solve_fn R X0).
+
+  Lemma F3_init n A m RHS : wfm n A -> Decoupled n A m -> Forall (fun r => length r = n) RHS ->
+    Forall3 (col_ok n A m) RHS (map (pn m) RHS) (map (fun r => diag_div m r (diag A)) RHS).
+  Proof. intros W Dc. induction 1; simpl; constructor; auto. apply col_ok_init; auto. Qed.
+
+  Theorem do_solve_correct n A cplxA m db adj solve_fn crhs isvec RHS X0 :
+    wfm n A -> Decoupled n A m -> db_inv n A m db -> solve_fn_ok n A solve_fn ->
+    Forall (fun r => length r = n) RHS ->
+    Forall2 (fun rhs x => length x = n /\ mv A x = rhs) RHS
+            (fst (fst (do_solve A cplxA m db adj solve_fn crhs isvec RHS X0))) /\
+    db_inv n A m (snd (fst (do_solve A cplxA m db adj solve_fn crhs isvec RHS X0))).
+  Proof.
+    intros W Dc Hdb Hfn HR. unfold do_solve.
+    pose proof (gs_loop_ok n A m (cplxA || crhs) RHS W Dc db _ _ (proj1 Hdb) (F3_init n A m RHS W Dc HR)) as H3.
+    destruct (fold_left (gs_step (cplxA || crhs)) db
+               (map (pn m) RHS, map (fun r => diag_div m r (diag A)) RHS)) as [RL SOL]. simpl in H3.
+    fold (did_of A SOL RHS).
+    destruct (existsb (fun b0 : bool => b0) (did_of A SOL RHS)) eqn:Ee; simpl.
+    - pose proof (pick_lengths n A m RHS RL SOL H3 (did_of A SOL RHS)) as Hpl.
+      pose proof (Hfn (pick (did_of A SOL RHS) RL)
+                      (match X0 with None => None | Some X => Some (x0_loc m db (did_of A SOL RHS) isvec X) end) Hpl) as HX.
+      split.
+      + apply (merge_correct n A m W Dc RHS RL SOL H3); auto.
+      + apply add_db_loop_inv; auto.
+        clear - HX. induction HX as [|r0 x R X [Hl _] HX IH]; constructor; auto.
+    - split; auto. apply (no_call_correct n A m W RHS RL SOL H3 Ee).
+  Qed.
+
+  (* ---------------------------------------------------------------- reuse *)
+  Lemma gs_step_full dt p RL SOL : p_tag p && negb dt = false ->
+    fst (gs_step dt (RL, SOL) p) = map (fun rl => mgs_step rl (p_b p)) RL.
+  Proof.
+    intros E. unfold gs_step. rewrite E. simpl.
+    rewrite map_map, map2_map_r, map2_diag. reflexivity.
+  Qed.
+
+  Lemma gs_loop_full dt : forall db RL SOL, (dt = true \/ Forall (fun p => p_tag p = false) db) ->
+    fst (fold_left (gs_step dt) db (RL, SOL)) = map (mgs (map p_b db)) RL.
+  Proof.
+    induction db as [|p db IH]; intros RL SOL Hn; simpl.
+    - unfold mgs. simpl. now rewrite map_id.
+    - assert (E : p_tag p && negb dt = false).
+      { destruct Hn as [-> | Hn]. apply andb_false_r. apply Forall_cons_iff in Hn as [-> _]. reflexivity. }
+      pose proof (gs_step_full dt p RL SOL E) as E1.
+      destruct (gs_step dt (RL, SOL) p) as [RL' SOL']. simpl in E1. subst RL'.
+      rewrite IH. + rewrite map_map. reflexivity.
+      + destruct Hn as [Hn | Hn]; auto. right. apply Forall_cons_iff in Hn as [_ Hn]; auto.
+  Qed.
+
+  (* a right-hand side whose non-diagonal part lies in the span of the stored right-hand sides is answered
+     without calling the inner solver (and the database does not change) *)
+  Theorem do_solve_reuse n A cplxA m db adj solve_fn crhs isvec RHS X0 :
+    wfm n A -> Decoupled n A m -> db_inv n A m db -> Forall (fun r => length r = n) RHS ->
+    (cplxA || crhs = true \/ Forall (fun p => p_tag p = false) db) ->
+    Forall (fun rhs => span n (map p_b db) (pn m rhs)) RHS ->
+    snd (do_solve A cplxA m db adj solve_fn crhs isvec RHS X0) = None /\
+    snd (fst (do_solve A cplxA m db adj solve_fn crhs isvec RHS X0)) = db.
+  Proof.
+    intros W Dc Hdb HR Hn Hs. unfold do_solve.
+    pose proof (gs_loop_ok n A m (cplxA || crhs) RHS W Dc db _ _ (proj1 Hdb) (F3_init n A m RHS W Dc HR)) as H3.
+    pose proof (gs_loop_full (cplxA || crhs) db (map (pn m) RHS) (map (fun r => diag_div m r (diag A)) RHS) Hn) as ERL.
+    destruct (fold_left (gs_step (cplxA || crhs)) db
+               (map (pn m) RHS, map (fun r => diag_div m r (diag A)) RHS)) as [RL SOL]. simpl in H3, ERL.
+    fold (did_of A SOL RHS).
+    assert (Ee : existsb (fun b0 : bool => b0) (did_of A SOL RHS) = false).
+    { subst RL. rewrite map_map in H3. pose proof W as [HlA _].
+      clear - H3 Hs Hdb W L HlA inner. revert SOL H3. induction Hs as [|rhs RHS Hsp Hs IH]; intros SOL H3.
+      - apply Forall3_nil_inv in H3 as [_ ->]. reflexivity.
+      - simpl in H3. destruct (Forall3_cons_inv _ _ _ _ _ H3) as (b1 & lb & sol & SOL' & Eb & -> & Hc & H3').
+        injection Eb as <- <-. unfold did_of. simpl. fold (did_of A SOL' RHS).
+        rewrite IH by auto. rewrite orb_false_r.
+        destruct Hc as (H1 & H2 & H3c & H4 & H5).
+        rewrite (mgs_span n) in H4; auto.
+        + rewrite vadd_zero_r in H4 by (rewrite mv_length; lia). rewrite H4, vsub_self, nrm2_zero.
+          apply negb_false_iff, is0_spec. reflexivity.
+        + apply Hdb.
+        + apply (pair_ok_nzlen n A m). apply Hdb. }
+    rewrite Ee. simpl. auto.
+  Qed.
+
+  (* ================================================================ update / solve on the state *)
+  Definition inner_ok (n : nat) A : Prop :=
+    forall adj : bool, solve_fn_ok n (if adj then mH A else A) (inner A adj).
+
+  Definition state_inv (st : state) : Prop :=
+    match s_A st with
+    | None => True
+    | Some (c, A) =>
+        exists n sym herm,
+          wfm n A /\ s_sym st = Some sym /\ s_herm st = Some herm /\ truthful sym herm A /\
+          Decoupled n A (s_mask st) /\ inner_ok n A /\
+          db_inv n A (s_mask st) (s_dbN st) /\ db_inv n (mH A) (s_mask st) (s_dbH st)
+    end.
+
+  Lemma db_inv_nil n A m : db_inv n A m [].
+  Proof. split; simpl; auto. Qed.
+
+  Lemma init_state_inv sym herm : state_inv (init_state sym herm).
+  Proof. exact Logic.I. Qed.
+
+  (* update(): both databases are emptied *)
+  Theorem update_clears st c A : s_dbN (update st c A) = [] /\ s_dbH (update st c A) = [].
+  Proof. split; reflexivity. Qed.
+
+  Theorem update_inv st c A :
+    wfm (length A) A -> inner_ok (length A) A -> (c = false -> mconj A = A) ->
+    (s_sym st = Some true -> mtrans A = A) -> (s_herm st = Some true -> mH A = A) ->
+    state_inv (update st c A).
+  Proof.
+    intros W Hin Hreal Hs Hh. unfold state_inv, update. cbn [s_A s_sym s_herm s_mask s_dbN s_dbH].
+    exists (length A), (match s_sym st with Some s => s | None => is_symmetric A end),
+           (match s_herm st with Some h => h | None => is_hermitian c A end).
+    split; [exact W |]. split; [reflexivity |]. split; [reflexivity |]. split.
+    { split.
+      - intros E. destruct (s_sym st) as [s|]; [subst; auto |].
+        unfold is_symmetric in E. apply mat_eqb_spec in E. auto.
+      - intros E. destruct (s_herm st) as [h|]; [subst; auto |].
+        unfold is_hermitian in E. destruct c.
+        + apply mat_eqb_spec in E. unfold mH. rewrite <- mconj_mtrans. auto.
+        + unfold is_symmetric in E. apply mat_eqb_spec in E. unfold mH. rewrite Hreal; auto. }
+    split; [apply diag_detect_sound; auto |]. split; [exact Hin |]. split; apply db_inv_nil.
+  Qed.
+
+  Lemma Forall2_map_l {X Y Z} (P : Y -> Z -> Prop) (f : X -> Y) l l' :
+    Forall2 P (map f l) l' <-> Forall2 (fun a c => P (f a) c) l l'.
+  Proof.
+    revert l'; induction l as [|a l IH]; intros l'; simpl; split; intros H.
+    - inversion H; constructor. - inversion H; constructor.
+    - inversion H; subst. constructor; auto. apply IH; auto.
+    - inversion H; subst. constructor; auto. apply IH; auto.
+  Qed.
+  Lemma Forall2_map_r {X Y Z} (P : X -> Z -> Prop) (f : Y -> Z) l l' :
+    Forall2 P l (map f l') <-> Forall2 (fun a c => P a (f c)) l l'.
+  Proof.
+    revert l'; induction l as [|a l IH]; intros [|c l']; simpl; split; intros H; try (inversion H; fail); try constructor.
+    - inversion H; auto. - inversion H; subst. apply IH; auto.
+    - inversion H; auto. - inversion H; subst. apply IH; auto.
+  Qed.
+  Lemma Forall2_impl {X Y} (P Q : X -> Y -> Prop) l l' : (forall a c, P a c -> Q a c) -> Forall2 P l l' -> Forall2 Q l l'.
+  Proof. intros HPQ. induction 1; constructor; auto. Qed.
+
+  (* the returned vectors solve the requested system exactly; the invariant is preserved *)
+  Theorem solve_correct st c A crhs isvec RHS X0 t :
+    state_inv st -> s_A st = Some (c, A) -> trans_valid t = true ->
+    Forall (fun r => length r = length A) RHS ->
+    exists res, snd (solve inner st crhs isvec RHS X0 t) = inr res /\
+                Forall2 (fun b x => mv (op_mat t A) x = b) RHS (r_x res) /\
+                state_inv (fst (solve inner st crhs isvec RHS X0 t)).
+  Proof.
+    intros Hinv EA Ht HR. unfold state_inv in Hinv. rewrite EA in Hinv.
+    destruct Hinv as (n & sym & herm & W & Es & Eh & Htr & Dc & Hin & HdN & HdH).
+    assert (En : length A = n) by apply W. rewrite En in HR.
+    unfold solve. rewrite Ht, EA, Es, Eh. cbn [negb].
+    set (cm := conj_mode sym herm t). set (am := adjoint_mode sym herm t).
+    set (RHS' := if cm then map vconj RHS else RHS).
+    assert (HR' : Forall (fun r => length r = n) RHS').
+    { unfold RHS'. destruct cm; auto. apply Forall_forall. intros r Hr. apply in_map_iff in Hr as [r0 [<- Hr0]].
+      rewrite vconj_length. rewrite Forall_forall in HR. auto. }
+    assert (Hfinal : forall X, Forall2 (fun rhs x => length x = n /\ mv (if am then mH A else A) x = rhs) RHS' X ->
+                     Forall2 (fun b x => mv (op_mat t A) x = b) RHS (if cm then map vconj X else X)).
+    { intros X HX. pose proof (fun y b => mode_table sym herm t A y b Ht Htr) as MT. fold cm am in MT.
+      unfold RHS' in HX. destruct cm.
+      - apply Forall2_map_r. apply Forall2_map_l in HX. eapply Forall2_impl; [| exact HX].
+        intros b x [_ E]. apply MT. exact E.
+      - eapply Forall2_impl; [| exact HX]. intros b x [_ E]. apply MT. exact E. }
+    destruct am eqn:Eam.
+    - pose proof (do_solve_correct n (mH A) c (s_mask st) (s_dbH st) true (inner A true) crhs isvec RHS' X0
+                    (wfm_mH n A W) (Decoupled_mH n A _ W Dc) HdH (Hin true) HR') as [HX Hdb].
+      destruct (do_solve (mH A) c (s_mask st) (s_dbH st) true (inner A true) crhs isvec RHS' X0) as [[X db'] cl].
+      cbn [fst snd] in *. eexists. split; [reflexivity | split].
+      + cbn [r_x]. apply Hfinal; auto.
+      + unfold state_inv. cbn [s_A s_sym s_herm s_mask s_dbN s_dbH].
+        exists n, sym, herm. split; [exact W |]. split; [reflexivity |]. split; [reflexivity |]. split; [exact Htr |].
+        split; [exact Dc |]. split; [exact Hin |]. split; assumption.
+    - pose proof (do_solve_correct n A c (s_mask st) (s_dbN st) false (inner A false) crhs isvec RHS' X0
+                    W Dc HdN (Hin false) HR') as [HX Hdb].
+      destruct (do_solve A c (s_mask st) (s_dbN st) false (inner A false) crhs isvec RHS' X0) as [[X db'] cl].
+      cbn [fst snd] in *. eexists. split; [reflexivity | split].
+      + cbn [r_x]. apply Hfinal; auto.
+      + unfold state_inv. cbn [s_A s_sym s_herm s_mask s_dbN s_dbH].
+        exists n, sym, herm. split; [exact W |]. split; [reflexivity |]. split; [reflexivity |]. split; [exact Htr |].
+        split; [exact Dc |]. split; [exact Hin |]. split; assumption.
+  Qed.
+
+  (* ================================================================ histories *)
+  Definition op_ok (st : state) (o : op) : Prop :=
+    match o with
+    | Update c A => wfm (length A) A /\ inner_ok (length A) A /\ (c = false -> mconj A = A) /\
+                    (s_sym st = Some true -> mtrans A = A) /\ (s_herm st = Some true -> mH A = A)
+    | Solve crhs isvec RHS X0 t =>
+        trans_valid t = true /\
+        match s_A st with Some (_, A) => Forall (fun r => length r = length A) RHS | None => False end
+    end.
+  Fixpoint hist_ok (st : state) (ops : list op) : Prop :=
+    match ops with
+    | [] => True
+    | o :: ops' => op_ok st o /\ hist_ok (fst (step inner st o)) ops'
+    end.
+  Definition answer_ok (st : state) (o : op) : Prop :=
+    match o with
+    | Update _ _ => True
+    | Solve crhs isvec RHS X0 t =>
+        match s_A st with
+        | Some (_, A) => exists res, snd (solve inner st crhs isvec RHS X0 t) = inr res /\
+                                     Forall2 (fun b x => mv (op_mat t A) x = b) RHS (r_x res)
+        | None => False
+        end
+    end.
+  Fixpoint answers_ok (st : state) (ops : list op) : Prop :=
+    match ops with
+    | [] => True
+    | o :: ops' => answer_ok st o /\ answers_ok (fst (step inner st o)) ops'
+    end.
+
+  Lemma step_solve_fst st crhs isvec RHS X0 t :
+    fst (step inner st (Solve crhs isvec RHS X0 t)) = fst (solve inner st crhs isvec RHS X0 t).
+  Proof. unfold step. destruct (solve inner st crhs isvec RHS X0 t); reflexivity. Qed.
+
+  Lemma step_inv st o : state_inv st -> op_ok st o -> state_inv (fst (step inner st o)) /\ answer_ok st o.
+  Proof.
+    intros Hinv Hok. destruct o as [c A | crhs isvec RHS X0 t].
+    - destruct Hok as (W & Hin & Hreal & Hs & Hh). split; [| exact Logic.I].
+      cbn [step fst]. apply update_inv; auto.
+    - destruct Hok as [Ht HR]. rewrite step_solve_fst. unfold answer_ok.
+      destruct (s_A st) as [[c A]|] eqn:EA; [| contradiction].
+      destruct (solve_correct st c A crhs isvec RHS X0 t Hinv EA Ht HR) as (res & E1 & E2 & E3).
+      split; eauto.
+  Qed.
+
+  (* every answer in every history is exact *)
+  Theorem history_correct : forall ops st, state_inv st -> hist_ok st ops -> answers_ok st ops.
+  Proof.
+    induction ops as [|o ops IH]; intros st Hinv Hh; simpl; auto.
+    destruct Hh as [Hok Hh]. destruct (step_inv st o Hinv Hok) as [Hinv' Ha]. split; auto.
+  Qed.
+  Theorem history_invariant : forall ops st, state_inv st -> hist_ok st ops -> state_inv (final inner st ops).
+  Proof.
+    induction ops as [|o ops IH]; intros st Hinv Hh; simpl; auto.
+    destruct Hh as [Hok Hh]. destruct (step_inv st o Hinv Hok) as [Hinv' Ha]. apply IH; auto.
   Qed.
 End LdaProofs.
